@@ -82,7 +82,7 @@ type DenomCfg struct {
 type Config struct {
 	// GenesisTime (unix seconds); 0 = the fixed default. Only the wall-clock-straddling variant of the
 	// crash-kill scenario sets it (to the real time of the run).
-	GenesisTime int64
+	GenesisTime   int64
 	NUsers        int
 	Denoms        []DenomCfg
 	ExtraFeeders  int
